@@ -306,6 +306,45 @@ def sweep(run, gen, focus, thorough, crate=None):
                     kind = "runtime-differs-from-literal"
                 run.violation("failing-input", {"kind": kind, "mnemonic": ob["mnemonic"], "commands": ob["lean_cmds"]}, what,
                               dict(payload, literal_line=fs[ob["form"]].render(dict(ob["vals"]), runtime={ob["idx"]: lit_text(ob, v), **({ob["idx"] - 1: str(a)} if a is not None else {})}), impl=b.hex() if st == "ok" else b))
+    # ---------------- coupled operands (lsb/width of the bitfield aliases) in MIXED spelling: one of the two at run time, the other literal.
+    # The both-literal result is the reference; the pairs are the ones on either side of an acceptance boundary.
+    mixed_cases, mixed_meta = [], []
+    for ob in (obs if focus in ("C04", "both") else []):
+        if not ob["needs_prev"]:
+            continue
+        by_a = {}
+        for (o, a, v) in plan:
+            if o is ob and a is not None and (ob["n"], a, v) in lit and in_type(v, ob["ty"]):
+                by_a.setdefault(a, set()).add(v)
+        chosen = set()
+        for a, vs in by_a.items():
+            vs = sorted(vs)
+            for v0, v1 in zip(vs, vs[1:]):
+                if (lit[(ob["n"], a, v0)] is None) != (lit[(ob["n"], a, v1)] is None):
+                    chosen |= {(a, v0), (a, v1)}
+        f = fs[ob["form"]]
+        for (a, v) in sorted(chosen)[:12]:
+            mixed_cases.append(dict(body="; .arch aarch64 ; " + f.render(dict(ob["vals"]), runtime={ob["idx"]: lit_text(ob, v), ob["idx"] - 1: "a"}), vars=[("a", "u32")]))
+            mixed_meta.append((ob, a, v, [a]))
+            mixed_cases.append(dict(body="; .arch aarch64 ; " + f.render(dict(ob["vals"]), runtime={ob["idx"]: "v", ob["idx"] - 1: str(a)}), vars=[("v", ob["ty"])]))
+            mixed_meta.append((ob, a, v, [v]))
+    if mixed_cases:
+        okm, logm, dropped = dyn.build_tolerant(crate + "M", mixed_cases)
+        if not okm:
+            run.violation("broken-correspondence", {"kind": "harness-build", "harness": "dyn-mixed"}, "the generated crate with mixed literal/run-time operand pairs does not build",
+                          {"log": logm[-3000:]}, found_input=False)
+        else:
+            mres = dyn.run(crate + "M", [(k, vals) for k, (_, _, _, vals) in enumerate(mixed_meta)])
+            for k, ((ob, a, v, vals), (st, b)) in enumerate(zip(mixed_meta, mres)):
+                stats["mixed_spelling"] = stats.get("mixed_spelling", 0) + 1
+                rw = None if (k in dropped or st != "ok") else int.from_bytes(b, "little")
+                lw = lit[(ob["n"], a, v)]
+                if rw != lw:
+                    run.violation("failing-input", {"kind": "mixed-spelling-differs", "mnemonic": ob["mnemonic"], "commands": ob["lean_cmds"], "runtime": "previous" if vals == [a] else "this"},
+                                  f"dynasm!(ops {mixed_cases[k]['body']}) with {mixed_cases[k]['vars'][0][0]} = {vals[0]} "
+                                  f"{'assembles to ' + hex(rw) if rw is not None else 'is refused'}, but with both operands literal ({a}, {v}) the instruction "
+                                  f"{'assembles to ' + hex(lw) if lw is not None else 'is rejected'}",
+                                  {"stream": "dyn", "case": mixed_cases[k], "values": vals})
     # ---------------- C04 on the implementation: documented values accepted, accepted values encoded injectively, both spellings
     if focus in ("C04", "both"):
         for (ob, a, v) in plan:
